@@ -75,7 +75,7 @@ pub const NAME_POOL: &[&str] = &[
     "data", "kind", "name", "value", "Foo", "Bar", "Baz", "Alpha", "Beta", "Gamma", "Ok", "Err",
     "None", "Some", "start", "end", "héllo", "名前", "", "field_with_a_rather_long_name_0123456789",
     "f0", "f1", "f2", "f3", "f4", "f5", "f6", "f7", "V0", "V1", "V2", "V3", "V4", "V5", "V6", "V7",
-    "A", "B", "Q", "K", "kb", "Kb", "KB", "foo", "FOO", "Id", "ID", "it's", "a b", "µ", "Ω",
+    "A", "B", "Q", "K", "kb", "Kb", "KB", "foo", "FOO", "Id", "ID", "it's", "a b", "µ", "Ω", "r#type", "type", "r#",
 ];
 
 #[derive(Clone, Debug, PartialEq, Eq, Hash, Serialize, Deserialize)]
